@@ -35,7 +35,9 @@ Verdict(q) ==
         As == {a \in A : a.len = q.ps}
     IN IF As = {} THEN "suffix"
        ELSE IF \A a \in As : a.icann # q.ic THEN
-            "icann:" \o (IF M = {} THEN "no-rule-matches" ELSE IF q.ic THEN "private-rule-prevails" ELSE "icann-rule-prevails")
+            "icann:" \o (IF M = {} THEN (IF \E k \in 1..q.n : q.f[k][5] = 1 THEN "no-rule-matches-below-wildcard-parent"
+                                         ELSE "no-rule-matches")
+                         ELSE IF q.ic THEN "private-rule-prevails" ELSE "icann-rule-prevails")
                      \o (IF q.ic THEN ":got-true" ELSE ":got-false")
        ELSE LET e == TLDPlusOne(q.n, q.ps) IN
             IF e.ok /\ (q.ee \/ q.e1 # e.len) THEN "etld1"
